@@ -24,7 +24,7 @@ func TestVerifStoreRace(t *testing.T) {
 	// that never ends - report it instead of waiting for the test binary's timeout
 	budget := time.Duration(90+rounds/1000) * time.Second
 	watchdog := time.AfterFunc(budget, func() {
-		fmt.Printf("stress hang: the store-level race harness did not finish within %v: a round never ended (lock order between a store shard and the expiry index?)\n", budget)
+		fmt.Printf("stress hang: the store-level race harness did not finish within %v: a round never ended (a lock that is never released, or an inverted lock order between a store shard and the expiry index?)\n", budget)
 		os.Exit(3)
 	})
 	defer watchdog.Stop()
